@@ -118,6 +118,10 @@ func record(env *fw.Env, c Case, res Result) {
 			env.Rec.Add("slow_requests_over_1s", 1)
 		}
 	}
+	for _, sig := range res.OutOfDomain {
+		classes = append(classes, "out-of-domain:"+sig)
+		env.Rec.Add("out_of_domain_failures", 1)
+	}
 	env.Rec.Add("requests", len(res.Reqs)+res.Repeats)
 	env.Rec.Add("stored_tuples", res.Stored)
 	for i := 0; i < late; i++ {
